@@ -527,6 +527,15 @@ pub fn plan_images(t: &TraceRun, r: &mut Rng, dense: bool, stride: usize) -> Vec
                 for k in ks {
                     plans.push(ImagePlan { upto: i, ref_pos, loss: Loss::PowerCut { file: fname.clone(), writes: k, torn: 0 } });
                 }
+                // cuts that leave the file ending exactly on a 32 KiB block boundary (the leading
+                // fragments of a record that spans blocks, without its end)
+                if file.ends_with(".wal") {
+                    let cuts = st.block_boundary_cuts(&file, 32 * 1024);
+                    let cuts: Vec<(usize, usize)> = if dense { cuts } else { cuts.into_iter().filter(|_| r.chance(1, 2)).take(2).collect() };
+                    for (k, tcut) in cuts {
+                        plans.push(ImagePlan { upto: i, ref_pos, loss: Loss::PowerCut { file: fname.clone(), writes: k, torn: tcut } });
+                    }
+                }
                 // torn cuts inside the first unsynced write: partial record headers
                 let mut torn: Vec<usize> = if dense { (1..=8).collect() } else { vec![r.range(1, 8) as usize] };
                 if first_len > 9 {
@@ -1037,6 +1046,7 @@ pub fn verify_main(args: &[String]) -> i32 {
         let _ = o.flush();
     }
     let _ = std::fs::remove_dir_all(&scratch);
+    let _ = std::fs::remove_dir(crate::e1::scratch_root());
     0
 }
 
